@@ -11,10 +11,19 @@ from ..gen import modules as gm
 
 LEAN_TARGETS = ['XdocModel.Proofs.C08', 'XdocModel.Pins.Collect']
 MANIFEST = {
-    'text': ("Full for the arithmetic (after repair 47e8bea), partial for `lineno` of google blocks (K-C08-a). Proved for ALL files, "
-             "docstrings, layouts and parser outputs of the model: `docstart_correct` (a literal on file lines a..b whose value has b-a "
-             "newlines, opened with an optionally r/R/u/U-prefixed triple quote and closed by the same quote followed only by blanks or a "
-             "comment, is located at line a+1; `docstart_oneline` otherwise), `google_offset_is_tag_index` (the i-th example comes from the "
+    'text': ("Full for the arithmetic (after repairs 47e8bea, d902c0b), partial for `lineno` of google blocks (K-C08-a) and for docstrings "
+             "with newline escapes (K-C08-b, excluded by the hypothesis LiteralLayout). Proved for ALL files, docstrings, layouts and parser "
+             "outputs of the model. Where the docstring starts: since d902c0b the code returns (docnode.lineno, docnode.end_lineno) whenever "
+             "the node has end_lineno (every CPython >= 3.8); the translator reads which variant the sources contain "
+             "(`Generated.docstartUsesNodeLineno`) and the model follows, so the start line is CPython's `lineno`, an ORACLE INPUT of the model "
+             "(field Doc.startLine, supplied by the harness from CPython's ast, cross-checked with the line on which the generator wrote the "
+             "literal). `docstart_correct` / `docstart_oneline` are proved for BOTH values of the flag: in node mode they say "
+             "doclineno = startLine; in workaround mode (flag false: interpreters without end_lineno, or a tree without d902c0b) they are the "
+             "theorems about `_find_docstr_startpos_workaround` (a literal on file lines a..b whose value has b-a newlines, opened with an "
+             "optionally r/R/u/U-prefixed triple quote and closed by the same quote followed only by blanks or a comment, is located at line "
+             "a+1). In node mode that function is unreachable from collection: it is neither a proof obligation (its pins live in "
+             "Pins/DocstrWorkaround.lean, built by this check only in workaround mode) nor part of the verdict (direct calls are counted as "
+             "`info:` tags only). `google_offset_is_tag_index` (the i-th example comes from the "
              "i-th example block, its tag line is at the block offset, lineno = doclineno + offset + 1), "
              "`freeform_offset_is_first_part_offset` (curr_offset is the parser offset of the first kept part; re-based offsets add up), "
              "`part_line_is_file_line_google` / `_freeform` (file[lineno + part.line_offset - 1] holds, up to the indentation dedent removed, "
@@ -25,7 +34,8 @@ MANIFEST = {
              "doclineno_end, DocTest.lineno, re-based part offsets, failed_lineno) model vs code, and the final numbers vs the TEXT of the "
              "generated file and vs the line numbers the generator knows by construction, after really running a doctest with one injected "
              "failure."),
-    'note': ("Trusted: Lean kernel; CPython's end_lineno, the layout of a string literal in the file, traceback line numbers (the failing "
+    'note': ("Trusted: Lean kernel; CPython's lineno / end_lineno of the docstring node, the layout of a string literal in the file, traceback "
+             "line numbers (the failing "
              "line inside a statement is cross-checked with the generator's knowledge); the doctest parser's tiling (C13) enters the "
              "freeform theorems as the hypothesis `Tiled`."),
     'technique': 'Lean 4 proof (index arithmetic, loop invariant of the freeform grouping, dedent keeps lines in place) + run-and-compare correspondence',
@@ -206,6 +216,20 @@ LINES_START = ['"""', '    """Summary', 'r"""', 'R"""x', "u'''", "U'''y", 'b"""'
 
 
 def correspondence(ctx, corr):
+    # which branch of _docnode_line_workaround the tree under test takes (read from its sources by the translator):
+    # 'node' = (docnode.lineno, docnode.end_lineno); 'workaround' = _find_docstr_startpos_workaround
+    mode = driver.run_lines(['docstart_mode'])[0]
+    corr.tag('docstart_mode=' + mode)
+    workaround = (mode != 'node')
+    if workaround:
+        # the pins of the workaround function are proof obligations only while that function is reachable
+        from .. import leanbuild
+        b = leanbuild.build(['XdocModel.Pins.DocstrWorkaround'])
+        corr.count('pins:DocstrWorkaround')
+        corr.tag('workaround_pins=' + ('ok' if b['ok'] else 'FAILED'))
+        if not b['ok']:
+            corr.disagree('pin:DocstrWorkaround', {'kind': 'pin', 'what': [e['msg'][:160] for e in b['errors'][:3]] or b['log'][-300:]},
+                          'the pattern texts the matcher of Static.findDocStart was derived from', 'edited in the sources')
     c07.merge(corr, par.pmap(_w_modules, [(ctx.seed, s, 10 if ctx.quick else 80) for s in range(16)]))
     # the two line tests of the docstring locator, exhaustively over a pool of line shapes
     import re
@@ -230,7 +254,9 @@ def correspondence(ctx, corr):
             if (ans[i] == '1') != real:
                 corr.disagree('start_ok', {'kind': 'line', 'trip': trip, 'line': l}, ans[i], real)
             i += 1
-    # _find_docstr_startpos_workaround itself (the real function, whichever branch calls it): start x end line shapes
+    # _find_docstr_startpos_workaround itself, called directly. In node mode the function is NOT reachable from
+    # collection (the property cannot depend on it), so differences are only counted (tags `info:...`), never part of
+    # the verdict; in workaround mode they are.
     from xdoctest import static_analysis
     cases = []
     for q in ("'''", '"""'):
@@ -251,14 +277,18 @@ def correspondence(ctx, corr):
         corr.count('startpos_workaround')
         inp = {'kind': 'startpos', 'docstr': d, 'lines': ls, 'endpos': e}
         if r != a:
-            corr.disagree('startpos_workaround', inp, a, r)
+            if workaround:
+                corr.disagree('startpos_workaround', inp, a, r)
+            else:
+                corr.tag('info:startpos_workaround:model!=code(unreachable)')
         if ok and r != '2,%d' % (e + 1):
-            corr.expect_fail('startpos_workaround', inp, '2,%d' % (e + 1), r,
-                             'a literal opened on line index 2 and closed on line index %d is not located there' % e)
+            if workaround:
+                corr.expect_fail('startpos_workaround', inp, '2,%d' % (e + 1), r,
+                                 'a literal opened on line index 2 and closed on line index %d is not located there' % e)
+            else:
+                corr.tag('info:startpos_workaround:wrong-start(unreachable)')
     # literals with newline escapes / continuations: model vs code always; vs the true start line only when the code
     # takes the start from the node (K-C08-b otherwise)
-    mode = driver.run_lines(['docstart_mode'])[0]
-    corr.tag('docstart_mode=' + mode)
     model = cc.model_calldefs([s for s, _ in ESCAPE_SOURCES])
     for (src, exp), a in zip(ESCAPE_SOURCES, model):
         r, cds = C.real_calldefs(src)
@@ -271,16 +301,19 @@ def correspondence(ctx, corr):
             if got != exp:
                 corr.expect_fail('docstart', {'kind': 'module-doclines', 'source': src, 'label': 'escapes'},
                                  {k: [v, None] for k, v in exp.items()}, obs, 'the literal starts on another line')
-    # docstart on synthetic files through the real function (model vs code): every start x end shape
+    # docstart on synthetic files through parse_static_calldefs (property level: whatever branch the code takes): every
+    # start x end shape, including closing quotes followed by blanks / a tab / a comment with trailing blanks
     srcs = []
     for q in ("'''", '"""'):
         for pre in ('', 'r', 'R', 'u', 'U'):
             for opening in ('own', 'shared'):
-                for closing in ('own', 'comment', 'shared'):
+                for closing in ('own', 'comment', 'shared', 'blanks', 'tab', 'comment-blanks'):
                     for nbody in (0, 1, 3):
                         body = ['    line %d' % k for k in range(nbody)]
                         first = '    ' + pre + q + ('Summary' if opening == 'shared' else '')
-                        last = {'own': '    ' + q, 'comment': '    ' + q + '  # done', 'shared': '    end' + q}[closing]
+                        last = {'own': '    ' + q, 'comment': '    ' + q + '  # done', 'shared': '    end' + q,
+                                'blanks': '    ' + q + '   ', 'tab': '    ' + q + '\t',
+                                'comment-blanks': '    ' + q + ' # done  \t'}[closing]
                         srcs.append('\n'.join(['x = (1,', '     2)', 'def f():', first] + body + [last, '    return 1', '']))
     model = cc.model_calldefs(srcs)
     for s, a in zip(srcs, model):
@@ -344,7 +377,10 @@ def replay_finding(ctx, finding):
         # VALUE are counted, so every line after a newline escape is reported one too large per escape
         src = 'import os\n\n\ndef h():\n    """first\\nsecond\n\n    Example:\n        >>> print(1)\n        1\n    """\n'
         obs = _observe_lineno({'source': src, 'style': 'freeform'})
-        return bool(obs) and obs[0][2] == 9       # the prompt is on file line 8
+        if bool(obs) and obs[0][2] == 9:          # the prompt is on file line 8
+            return True
+        # a tree without d902c0b (workaround mode): the finding in its original form, the literal located at its END line
+        return cc.observe_doclines(WITNESS_B) == {'f': [7, 7]}
     return False
 
 
